@@ -690,6 +690,66 @@ def leg_predicates(ctx, fam, W, log, tag, rep):
                          dict(rep, restart=leg))
 
 
+def run_dropped(ctx, pool, base, cases):
+    """a restart that cannot re-issue everything on record (fewer steps left than records), then the run goes on with a
+    larger step count and is stopped and restarted again.  Byte equality with a straight run is not promised here (no
+    straight run has such a restart); what must hold: the chain is deterministic (run twice), the restart file carries
+    `current.spawned` exactly when records were dropped — with the value cstep + len(locked) + #dropped — and no job
+    ever gets the stream ordinal of an earlier job.   cases = [(fam, W, policy, k, N2, k2)]"""
+    scs = []
+    for i, (fam, W, policy, k, N2, k2) in enumerate(cases):
+        for r in (1, 2):
+            d = os.path.join(base, f"d{i}r{r}")
+            scs.append({"name": f"d{i}r{r}", "ops": [
+                {"op": "prepare", "dir": d, "engine": fam["engine"], "cfg": fam_cfg(fam, workers=W)},
+                {"op": "leg", "dir": d, "input": "infretis.toml", "kill_at": k, "policy": policy, "leg": 0},
+                {"op": "leg", "dir": d, "input": "restart.toml", "set_steps": k + 1, "policy": policy, "leg": 1},
+                {"op": "leg", "dir": d, "input": "restart.toml", "set_steps": N2, "kill_at": k2, "policy": policy, "leg": 2},
+                {"op": "leg", "dir": d, "input": "restart.toml", "policy": policy, "leg": 3}]})
+    res = pool.map(scs)
+    for i, (fam, W, policy, k, N2, k2) in enumerate(cases):
+        d, d2 = os.path.join(base, f"d{i}r1"), os.path.join(base, f"d{i}r2")
+        rep = {"engine": fam["engine"], "moves": fam["moves"], "mtag": fam["mtag"], "seed": fam["seed"], "N": fam["N"],
+               "nintf": fam["nintf"], "delete_old": fam["delete_old"], "cap": fam.get("cap"), "opts": fam.get("opts"),
+               "workers": W, "policy": policy, "kind": "dropped-record-chain", "chain": [k, N2, k2]}
+        tag = f"{fam_tag(fam)} W={W} {policy} stop after {k}, one more step, on to {N2}, stop after {k2}"
+        ctx.count(1, engine=fam["engine"], kind="dropped-record-chain", workers=W)
+        ctx.distinct((fam["engine"], fam["mtag"], fam["seed"], W, policy, k, N2, k2, "dropped"))
+        bad = [r for r in (res[2 * i], res[2 * i + 1]) if not r.get("ok")]
+        if bad:
+            ctx.fail("C06:run-raised", f"{tag}: {bad[0].get('error')}", dict(rep, trace=bad[0].get("trace")))
+            continue
+        diff = compare_dirs(d, d2, same_path_set=True)
+        if diff is not None:
+            ctx.fail("C06:determinism:two-runs-differ", f"{tag}: {diff['file']} line {diff['line']}: {diff['other']!r} vs "
+                                                        f"{diff['ref']!r}", dict(rep, first_difference=diff))
+        log = read_log(d)
+        by_leg = {}
+        for ev in log:
+            by_leg.setdefault(ev["leg"], []).append(ev)
+        dropped = 0
+        steps_of_leg = {0: fam["N"], 1: k + 1, 2: N2, 3: N2}
+        for leg in sorted(by_leg):
+            start = by_leg[leg][0]
+            if leg > 0:
+                rec_l = start.get("recorded_locked") or []
+                c0 = int(start.get("recorded_cstep") or 0)
+                key = start.get("recorded_spawned")
+                want = None if dropped == 0 else c0 + len(rec_l) + dropped
+                if key != want:
+                    ctx.fail("C06:restart:spawned-key-wrong",
+                             f"{tag}: the restart file read by restart {leg} has current.spawned = {key}; cstep {c0}, "
+                             f"{len(rec_l)} jobs on record, {dropped} records dropped so far: expected {want}",
+                             dict(rep, restart=leg))
+                dropped += len(rec_l) - min(len(rec_l), W, steps_of_leg[leg] - c0)
+        ctx.hit(f"records_dropped={dropped}")
+        ords = [x["streams"][0][1] for x in effective_submits(log)]
+        if len(set(ords)) != len(ords):
+            dup = sorted({o for o in ords if ords.count(o) > 1})
+            ctx.fail("C06:restart-chain:stream-ordinal-reused", f"{tag}: the stream ordinals {dup} were handed to two "
+                                                                f"different jobs (ordinals in issue order: {ords})", rep)
+
+
 def run_multi(ctx, pool, base, multi):
     scs = []
     for i, (fam, W, policy, kills) in enumerate(multi):
@@ -760,6 +820,11 @@ def run(ctx):
         ctx.extra["turtle_maxop_last_digit_lines_forgiven"] = ROUNDED["lines"]
         run_multi(ctx, pool, os.path.join(base, "multi"), multi)
         run_multi_fifo(ctx, pool, os.path.join(base, "fifo"), fifo)
+        lat3 = {"engine": "lattice", "mtag": "wf", "moves": ["sh", "sh", "wf", "wf"], "nintf": 4, "delete_old": False}
+        run_dropped(ctx, pool, os.path.join(base, "dropped"),
+                    [(dict(lat3, seed=sd, N=12), W, pol, k, 14, 10)
+                     for sd in ((1, 2) if ctx.quick else (0, 1, 2, 3, 5))
+                     for W, pol, k in ((3, "lifo", 4), (3, "ord-max", 5), (2, "fifo", 3))])
         ctx.sample({"families": [fam_tag(f) for f in fams][:12]})
         ctx.sample({"multi": [(fam_tag(f), W, p, list(k)) for f, W, p, k in multi][:8]})
     finally:
@@ -832,6 +897,8 @@ def replay(ctx, obj):
                     run_w1_families(ctx, pool, base, [fam], all_splits=[chain[0]], chains=[], every=False, fresh_one=False)
                 else:
                     run_w1_families(ctx, pool, base, [fam], all_splits=[], chains=[chain], every=False, fresh_one=False)
+            elif r.get("kind") == "dropped-record-chain":
+                run_dropped(ctx, pool, base, [(fam, r["workers"], r["policy"], r["chain"][0], r["chain"][1], r["chain"][2])])
             elif r.get("kind") == "multi-fifo-split":
                 run_multi_fifo(ctx, pool, base, [(fam, r["workers"], [tuple(r["chain"])], r.get("policy", "fifo"))])
             else:
